@@ -58,10 +58,30 @@ func checkC04(c *fw.Ctx) {
 			for x := range k {
 				keys[x] = true
 			}
-			c.Check(okOrigin, "4 siblings", short+" decodes its input minus the stripped keys", c.P.Pos(u.Pos()), "", "the bytes decoded into the event do not derive from the eventJSON parameter through key deletions only")
+			c.Expect(okOrigin, "4 siblings", short+" decodes its input minus the stripped keys", c.P.Pos(u.Pos()), "", "the bytes decoded into the event could not be traced to the eventJSON parameter through key deletions only")
 		}
-		c.Check(nUm > 0, "4 siblings", short+" decodes the stripped input with json.Unmarshal", c.P.Pos(fn.Pos()), "", "no json.Unmarshal of the stripped input found in the constructor")
-		c.Check(nonConst == 0, "4 siblings", short+" strips only constant keys", c.P.Pos(fn.Pos()), "", "a key is deleted under a non-constant name")
+		if nUm == 0 {
+			// the decoding sits in a helper: the keys deleted anywhere in the constructor's region
+			for _, u := range deepCallsTo(fn, fw.NameIs("encoding/json.Unmarshal")) {
+				if u.Fr == nil {
+					continue
+				}
+				ks, nc, _, t := strippedChain3(u.Call.Common().Args[0], u.Fr, u.Call.(ssa.Instruction), func(v ssa.Value) bool { return isParam(v, fn, 0) }, nil)
+				if t != fw.Yes {
+					continue // not the decoding of the event itself (or not traceable)
+				}
+				nUm++
+				nonConst += nc
+				for x := range ks {
+					keys[x] = true
+				}
+			}
+		}
+		c.Expect(nUm > 0, "4 siblings", short+" decodes the stripped input with json.Unmarshal", c.P.Pos(fn.Pos()), "", "no json.Unmarshal of the stripped input found in the constructor or its helpers")
+		c.Expect(nonConst == 0, "4 siblings", short+" strips only constant keys", c.P.Pos(fn.Pos()), "", "a key is deleted under a name that could not be resolved to a constant")
+		if nonConst > 0 {
+			keys["<unresolved>"] = true
+		}
 		stripped[short] = keys
 	}
 	c.Min("1 redact-on-mismatch constructors", n, 3)
@@ -79,6 +99,10 @@ func checkC04(c *fw.Ctx) {
 		}
 		if !strings.HasSuffix(short, "V1") {
 			want["event_id"] = true
+		}
+		if got["<unresolved>"] || len(got) == 0 {
+			c.Undecided("4 siblings", short+" strips the keys added by other servers", "the deleted keys could not all be resolved to constants (resolved: "+strings.Join(sortedSet(got), ",")+")")
+			continue
 		}
 		c.Check(sameSet(got, want), "4 siblings", short+" strips the keys added by other servers", c.P.Pos(ctors[short].Pos()), strings.Join(sortedSet(got), ","), "stripped keys "+strings.Join(sortedSet(got), ",")+": "+diffSets(got, want))
 	}
@@ -279,15 +303,29 @@ func checkUntrustedCtor(c *fw.Ctx, short string, fn *ssa.Function) {
 	}
 	c.Check(okStore, rule2, short+": the stored JSON is the hashed JSON", c.P.Pos(hc.Pos()), "", "the eventJSON kept on the event is not the value whose hash was checked")
 	// decoded bytes: json.Unmarshal's input is the same stripped value
-	um := fw.CallsTo(outer, false, fw.NameIs("encoding/json.Unmarshal"))
-	okUm := len(um) > 0
+	um := deepCallsTo(outer, fw.NameIs("encoding/json.Unmarshal"))
 	preRoot, _ := rootOf(pre, hfr)
+	same, raw, other := 0, 0, 0
 	for _, u := range um {
-		if a, _ := rootOf(u.Common().Args[0], nil); a != preRoot {
-			okUm = false
+		a, afr := rootOf(u.Call.Common().Args[0], u.Fr)
+		switch {
+		case a == preRoot:
+			same++
+		case afr == nil && isParam(a, outer, 0):
+			raw++ // the bytes as received, before the keys were stripped
+		default:
+			other++
 		}
 	}
-	c.Check(okUm, rule2, short+": struct fields are decoded from the stripped bytes", c.P.Pos(fn.Pos()), "", "json.Unmarshal into the event struct reads different bytes than the ones that are hashed and stored (keys added by other servers, e.g. event_id or unsigned, become observable through accessors)")
+	construct2 := short + ": struct fields are decoded from the stripped bytes"
+	switch {
+	case raw > 0:
+		c.Fail(rule2, construct2, c.P.Pos(fn.Pos()), "json.Unmarshal into the event struct reads the bytes as received, not the stripped ones that are hashed and stored (keys added by other servers, e.g. event_id or unsigned, become observable through accessors)")
+	case same > 0 && other == 0:
+		c.Ok(rule2, construct2, c.P.Pos(fn.Pos()), "")
+	default:
+		c.Undecided(rule2, construct2, fmt.Sprintf("the bytes given to json.Unmarshal could not be identified with the hashed ones (%d identified, %d not)", same, other))
+	}
 }
 
 // checkNoOpRedact: Redact() returns at once for an event already marked redacted. A
